@@ -120,6 +120,7 @@ type VC struct {
 	litAxioms map[string]func(string) ([]string, []string) // per-literal axioms of other evaluable functions
 	seenObl  map[string]bool
 	useFS     bool                // a contract in force mentions field sets (append facts are emitted)
+	frameOwned bool               // a property whose class set contains FRAME lists the root function
 	pureFrame bool                // the root contract says "assigns \nothing"
 	fsAnchor bool                 // field sets mentioned now belong to a loop-head assumption
 	fsAnchors map[string][]int    // indices (into fsSeen) of loop-head mentions
